@@ -133,8 +133,9 @@ fn compare_go_versions(current: &str, latest: &str) -> CompareResult {
                     std::cmp::Ordering::Less => CompareResult::Outdated,
                     std::cmp::Ordering::Greater => CompareResult::Newer,
                 },
-                (None, Some(_)) => CompareResult::Outdated, // Regular version vs pseudo
-                (Some(_), None) => CompareResult::Newer,    // Pseudo vs regular
+                // vX.Y.Z-<timestamp>-<commit> is a prerelease of vX.Y.Z, so it sorts below it
+                (None, Some(_)) => CompareResult::Newer, // Regular version vs pseudo
+                (Some(_), None) => CompareResult::Outdated, // Pseudo vs regular
                 (None, None) => CompareResult::Latest,
             }
         }
